@@ -341,6 +341,34 @@ theorem inv_insert {v : Hdr → Hdr → Bool} {c : Nat → Hdr} (hd : LinkDown v
      · exact Or.inl (insert_stored_mono v s.store batch _ h3)
      · exact Or.inr (insert_stored_mono v s.store batch _ h3)⟩
 
+/-- insertion of headers that are all honest keeps the store on the honest chain (no link needed) -/
+theorem insert_onchain_trusted (v : Hdr → Hdr → Bool) {c : Nat → Hdr} (a : AbsStore) (batch : List Hdr)
+    (hall : AllOnChain c a) (hb : ∀ x ∈ batch, OnChain c x) : AllOnChain c (a.insert v batch).1 := by
+  intro x hx
+  unfold AbsStore.insert at hx
+  split at hx
+  · exact hall x hx
+  · exact hall x hx
+  · simp only [List.mem_append] at hx
+    rcases hx with hx | hx
+    · exact hall x hx
+    · exact hb x hx
+
+theorem inv_insert_trusted (v : Hdr → Hdr → Bool) {c : Nat → Hdr} {s : State} (hi : Inv c s)
+    (batch : List Hdr) (hwf : ∀ x ∈ batch, HdrWf x) (hb : ∀ x ∈ batch, OnChain c x) :
+    Inv c { s with store := (s.store.insert v batch).1 } :=
+  ⟨insert_onchain_trusted v s.store batch hi.onchain hb,
+   insert_inv v s.store batch hi.abs hwf,
+   insert_top v s.store batch hi.top,
+   fun h hh => insert_nonempty v s.store batch (hi.headSet h hh),
+   fun hp => insert_nonempty v s.store batch (hi.connected hp),
+   fun r hr => by
+     obtain ⟨h1, h2, h3⟩ := hi.ongoingNb r hr
+     refine ⟨h1, h2, ?_⟩
+     rcases h3 with h3 | h3
+     · exact Or.inl (insert_stored_mono v s.store batch _ h3)
+     · exact Or.inr (insert_stored_mono v s.store batch _ h3)⟩
+
 open Lumina.Model.SyncerGate (fetchDecision Decision) in
 theorem inv_fetch {c : Nat → Hdr} (e : Env) {s : State} (hi : Inv c s) :
     Inv c (fetchNextBatch e s).1 := by
@@ -554,3 +582,386 @@ theorem missing_insert_lt (v : Hdr → Hdr → Bool) (a : AbsStore) (b : List Hd
       rw [insert_eq_added v a b _ _ hc, stored_iff]
       exact ⟨first, by simp only [added, List.mem_append]; exact Or.inr (head_of_mem ok.hd), rfl⟩
     simp [this]
+
+/-! ### an honest answer is accepted -/
+
+/-- the honest chain is well formed and `verify` is complete on it -/
+structure HonestChain (v : Hdr → Hdr → Bool) (c : Nat → Hdr) : Prop where
+  height : ∀ h, (c h).height = h
+  valid : ∀ h, (c h).valid = true
+  hashInj : ∀ h1 h2, (c h1).hash = (c h2).hash → h1 = h2
+  /-- adjacent honest headers (any validated copies of them) verify -/
+  verifies : ∀ a b, OnChain c a → OnChain c b → a.height + 1 = b.height → v a b = true
+
+/-- the honest headers of heights `lo, lo+1, …` (`n` of them) -/
+def span (c : Nat → Hdr) (lo n : Nat) : List Hdr := (List.range' lo n).map c
+
+theorem onChain_honest {v : Hdr → Hdr → Bool} {c : Nat → Hdr} (hc : HonestChain v c) (h : Nat) :
+    OnChain c (c h) := ⟨hc.valid h, by rw [hc.height h]⟩
+
+theorem span_chainOK {v : Hdr → Hdr → Bool} {c : Nat → Hdr} (hc : HonestChain v c) :
+    ∀ (n lo : Nat), chainOK v (span c lo n) = true
+  | 0, _ => rfl
+  | 1, _ => rfl
+  | n + 2, lo => by
+    have ih := span_chainOK hc (n + 1) (lo + 1)
+    simp only [span, List.range'_succ, List.map_cons] at ih ⊢
+    simp only [chainOK, Bool.and_eq_true, beq_iff_eq]
+    refine ⟨⟨by rw [hc.height, hc.height], ?_⟩, ih⟩
+    exact hc.verifies _ _ (onChain_honest hc _) (onChain_honest hc _) (by rw [hc.height, hc.height])
+
+theorem span_head (c : Nat → Hdr) (lo n : Nat) : (span c lo (n + 1)).head? = some (c lo) := by
+  simp [span, List.range'_succ]
+
+theorem span_last (c : Nat → Hdr) (lo n : Nat) : (span c lo (n + 1)).getLast? = some (c (lo + n)) := by
+  simp only [span]
+  rw [List.range'_concat]
+  simp
+
+theorem span_nodup {v : Hdr → Hdr → Bool} {c : Nat → Hdr} (hc : HonestChain v c) :
+    ∀ (n lo : Nat) (known : List Lumina.Model.Store.Hash),
+      (∀ q ∈ known, ∀ h, lo ≤ h → h < lo + n → q ≠ (c h).hash) →
+      firstDupHash known (span c lo n) = none
+  | 0, _, _, _ => rfl
+  | n + 1, lo, known, hk => by
+    simp only [span, List.range'_succ, List.map_cons, firstDupHash]
+    have hnot : known.contains (c lo).hash = false := by
+      cases hc' : known.contains (c lo).hash with
+      | false => rfl
+      | true =>
+        have hm : (c lo).hash ∈ known := by simpa using hc'
+        exact absurd rfl (hk _ hm lo (Nat.le_refl _) (by omega))
+    rw [hnot]
+    simp only [Bool.false_eq_true, ↓reduceIte]
+    apply span_nodup hc n (lo + 1)
+    intro q hq h h1 h2
+    rcases List.mem_cons.1 hq with rfl | hq
+    · intro e
+      have := hc.hashInj _ _ e
+      omega
+    · exact hk q hq h (by omega) (by omega)
+
+/-- **An honest answer is accepted**: the honest headers of a range that is disjoint from the
+    stored heights and touches a stored height pass every check of `insert`. -/
+theorem honest_span_accepted {v : Hdr → Hdr → Bool} {c : Nat → Hdr} (hc : HonestChain v c)
+    (a : AbsStore) (hall : AllOnChain c a) (lo hi : Nat) (h1 : 1 ≤ lo) (h2 : lo ≤ hi)
+    (hdis : ∀ x ∈ a.hdrs, ¬ (lo ≤ x.height ∧ x.height ≤ hi)) (hnb : NbStored a lo hi) :
+    AbsStore.insertCheck v a (span c lo (hi + 1 - lo)) = .ok (some (lo, hi)) := by
+  obtain ⟨n, hn⟩ : ∃ n, hi + 1 - lo = n + 1 := ⟨hi - lo, by omega⟩
+  have hlast : lo + n = hi := by omega
+  unfold AbsStore.insertCheck
+  rw [hn, span_head, span_last, hlast]
+  simp only [span_chainOK hc, Bool.not_true, Bool.false_eq_true, ↓reduceIte, hc.height]
+  -- placement
+  have hpl : AbsStore.placement a lo hi = .ok () := by
+    unfold AbsStore.placement
+    rw [if_neg (by simp; omega)]
+    simp only []
+    have hany : (a.hdrs.any fun x => between lo hi x.height) = false := by
+      rw [List.any_eq_false]
+      intro x hx
+      have := hdis x hx
+      simp [between]; omega
+    rw [if_neg (by simp [hany])]
+    rcases hnb with hp | hnx
+    · rw [if_neg (by simp [hp])]
+    · rw [if_neg (by simp [hnx])]
+  rw [hpl]
+  simp only []
+  -- neighbours
+  have hprev : AbsStore.prevOK v a (c lo) = true := by
+    unfold AbsStore.prevOK
+    rw [hc.height]
+    split
+    · rename_i p hp
+      obtain ⟨hpm, hph⟩ := atHeight_mem hp
+      exact hc.verifies p (c lo) (hall p hpm) (onChain_honest hc lo) (by rw [hc.height]; omega)
+    · rfl
+  have hnext : AbsStore.nextOK v a (c hi) = true := by
+    unfold AbsStore.nextOK
+    rw [hc.height]
+    split
+    · rename_i q hq
+      obtain ⟨hqm, hqh⟩ := atHeight_mem hq
+      exact hc.verifies (c hi) q (onChain_honest hc hi) (hall q hqm) (by rw [hc.height]; omega)
+    · rfl
+  rw [if_neg (by simp [hprev, hnext])]
+  -- no repeated hash
+  have hnd : firstDupHash (a.hdrs.map (·.hash)) (span c lo (n + 1)) = none := by
+    apply span_nodup hc
+    intro q hq h hl hu
+    obtain ⟨x, hx, rfl⟩ := List.mem_map.1 hq
+    intro e
+    have hxo := hall x hx
+    rw [hxo.2] at e
+    have := hc.hashInj _ _ e
+    exact hdis x hx ⟨by omega, by omega⟩
+  rw [hnd]
+
+open Lumina.Model.SyncerGate (fetchDecision Decision) in
+open Lumina.Proofs.SyncerGate Lumina.Proofs.Ranges in
+/-- a scheduled batch shares no height with the store (C24: only missing heights are requested) -/
+theorem request_disjoint {e : Env} {s : State} {r : Lumina.Model.Ranges.Range}
+    (hi : AbsInv s.store)
+    (h : fetchDecision e.slowMin (gateIn e s) = .ok (.request r)) :
+    ∀ x ∈ s.store.hdrs, ¬ (r.1 ≤ x.height ∧ x.height ≤ r.2) := by
+  obtain ⟨ist, mst⟩ := storedRanges_spec hi
+  obtain ⟨ipr, mpr⟩ := prunedRanges_spec hi
+  obtain ⟨head, synced, _, _, hadd, hcalc, hnemp, _, _⟩ := request_cases h
+  simp only [gateIn] at hadd hcalc
+  obtain ⟨c, hc, hci, hcm⟩ := add_spec ipr ist
+  rw [hadd] at hc
+  injection hc with hc
+  subst hc
+  obtain ⟨_, _, hshape⟩ := calc_cases hci hcalc hnemp
+  intro x hx hb
+  have hxs : mem synced x.height := (hcm _).2 (Or.inr ((mst _).2 ((stored_iff _ _).2 ⟨x, hx, rfl⟩)))
+  rcases hshape with ⟨habove, _, _⟩ | ⟨_, _, hgap⟩
+  · have := habove _ hxs; omega
+  · exact hgap _ hb.1 hb.2 hxs
+
+open Lumina.Model.SyncerGate (fetchDecision Decision) in
+/-- **An honest answer to a scheduled request is admissible, is accepted by the store and strictly
+    decreases the number of missing heights** of `[1, K]` for every `K` at or above the start of
+    the batch. -/
+theorem honest_answer_progress {v : Hdr → Hdr → Bool} {c : Nat → Hdr} (hc : HonestChain v c)
+    {e : Env} {s : State} (hi : Inv c s) (hne : s.store.hdrs ≠ []) {r : Lumina.Model.Ranges.Range}
+    (h : fetchDecision e.slowMin (gateIn e s) = .ok (.request r)) (K : Nat) (hK : r.1 ≤ K) :
+    p2pAccepts v r (span c r.1 (r.2 + 1 - r.1)) = true ∧
+    AbsStore.insertCheck v s.store (span c r.1 (r.2 + 1 - r.1)) = .ok (some (r.1, r.2)) ∧
+    missing (s.store.insert v (span c r.1 (r.2 + 1 - r.1))).1 1 K < missing s.store 1 K := by
+  obtain ⟨h1, h2, hnb⟩ := request_has_stored_neighbour hi.abs hi.top hne h
+  have hdis := request_disjoint hi.abs h
+  have hacc := honest_span_accepted hc s.store hi.onchain r.1 r.2 h1 h2 hdis hnb
+  refine ⟨?_, hacc, missing_insert_lt v s.store _ 1 K r.1 r.2 hacc h1 hK⟩
+  obtain ⟨n, hn⟩ : ∃ n, r.2 + 1 - r.1 = n + 1 := ⟨r.2 - r.1, by omega⟩
+  unfold p2pAccepts
+  rw [hn, span_head, span_last]
+  simp only [Bool.and_eq_true, List.all_eq_true, beq_iff_eq, hc.height, span_chainOK hc]
+  refine ⟨⟨⟨?_, trivial⟩, trivial⟩, by omega⟩
+  intro x hx
+  simp only [span, List.mem_map] at hx
+  obtain ⟨y, _, rfl⟩ := hx
+  exact hc.valid y
+
+/-! ### convergence of the honest schedule -/
+
+theorem slowSyncScan_none (oldP : Nat → Bool) (h0 : ∀ h, oldP h = false) :
+    ∀ l : List Nat, Lumina.Model.SyncerGate.slowSyncScan oldP none l = none
+  | [] => rfl
+  | x :: rest => by
+    simp only [Lumina.Model.SyncerGate.slowSyncScan, h0 x, Bool.false_eq_true, ↓reduceIte]
+    exact slowSyncScan_none oldP h0 rest
+
+/-- the side conditions under which the honest schedule is followed -/
+structure Steady (c : Nat → Hdr) (e : Env) (s : State) (H : Nat) : Prop where
+  inv : Inv c s
+  idle : s.ongoing = none
+  connected : s.phase = .connected
+  peers : s.peers ≠ 0
+  head : s.head = some H
+  headLt : H < Lumina.Model.Ranges.U64_MAX
+  batch : 1 ≤ s.batchSize
+  slow : s.slowSync = none
+  unpruned : s.store.pruned = []
+  below : ∀ x ∈ s.store.hdrs, x.height ≤ H
+
+/-- every height of the sampling window up to `H` is stored -/
+def WindowFull (e : Env) (a : AbsStore) (H : Nat) : Prop :=
+  ∀ m, 1 ≤ m → m ≤ H → e.chain.oldS m = false → a.stored m = true
+
+open Lumina.Model.SyncerGate (fetchDecision Decision) in
+/-- **Convergence of the honest schedule.**  From a steady state (connected, idle, nothing pruned,
+    slow-sync not armed) let the worker decide, and let every request it schedules be answered
+    with the honest headers of the requested range, nothing else happening in between.  After
+    finitely many such answers (at most the number of missing heights) the worker schedules
+    nothing more and every height of the sampling window up to the head is stored; every event
+    of that run is admissible. -/
+theorem honest_schedule_converges {v : Hdr → Hdr → Bool} {c : Nat → Hdr} (hc : HonestChain v c)
+    {e : Env} (hev : e.verify = v) (hP : ∀ h, e.chain.oldP h = false)
+    (hmono : ∀ h1 h2, h1 ≤ h2 → e.chain.oldS h2 = true → e.chain.oldS h1 = true) (H : Nat) :
+    ∀ (n : Nat) (s0 : State), Steady c e s0 H → missing s0.store 1 H ≤ n →
+      ∃ evs : List Ev, RunOk v c e (fetchNextBatch e s0).1 evs ∧ evs.length ≤ n ∧
+        WindowFull e (run e (fetchNextBatch e s0).1 evs).store H ∧
+        (run e (fetchNextBatch e s0).1 evs).ongoing = none := by
+  intro n
+  induction n with
+  | zero =>
+    intro s0 hs hn
+    -- nothing is missing: the decision is "nothing" or irrelevant; no event is needed
+    have hfull : ∀ m, 1 ≤ m → m ≤ H → s0.store.stored m = true := by
+      intro m h1 h2
+      cases hst : s0.store.stored m with
+      | true => rfl
+      | false =>
+        exfalso
+        have : 0 < missing s0.store 1 H := by
+          unfold missing
+          apply List.countP_pos_iff.2
+          exact ⟨m, by simp only [List.mem_range'_1]; omega, by simp [hst]⟩
+        omega
+    -- with everything stored up to the head there is nothing to fetch
+    cases hreq : (fetchNextBatch e s0).2 with
+    | none =>
+      have hs1 : (fetchNextBatch e s0).1 = s0 := by
+        unfold fetchNextBatch at hreq ⊢
+        split at hreq
+        · cases hreq
+        · rfl
+      refine ⟨[], trivial, Nat.le_refl _, ?_, ?_⟩
+      · intro m h1 h2 _; simp only [run]; rw [hs1]; exact hfull m h1 h2
+      · simp only [run]; rw [hs1]; exact hs.idle
+    | some r =>
+      exfalso
+      unfold fetchNextBatch at hreq
+      split at hreq
+      · rename_i r' hdec
+        have hne := hs.inv.headSet H hs.head
+        obtain ⟨h1, h2, _⟩ := request_has_stored_neighbour hs.inv.abs hs.inv.top hne hdec
+        have hdis := request_disjoint hs.inv.abs hdec
+        -- r'.1 is a real height ≤ H that is not stored: contradiction
+        obtain ⟨_, _, _, _, _, _, _, _, _⟩ := Lumina.Proofs.SyncerGate.request_cases hdec
+        have hle : r'.1 ≤ H := by
+          obtain ⟨ist, mst⟩ := storedRanges_spec hs.inv.abs
+          obtain ⟨ipr, mpr⟩ := prunedRanges_spec hs.inv.abs
+          obtain ⟨head, synced, _, hhead, hadd, hcalc, hnemp, _, _⟩ :=
+            Lumina.Proofs.SyncerGate.request_cases hdec
+          simp only [gateIn] at hadd hcalc hhead
+          obtain ⟨c', hc', hci, hcm⟩ := Lumina.Proofs.Ranges.add_spec ipr ist
+          rw [hadd] at hc'
+          injection hc' with hc'
+          subst hc'
+          obtain ⟨_, _, hshape⟩ := Lumina.Proofs.SyncerGate.calc_cases hci hcalc hnemp
+          rw [hs.head] at hhead
+          injection hhead with hhead
+          subst hhead
+          rcases hshape with ⟨_, hr2, _⟩ | ⟨hb, _, _⟩
+          · omega
+          · rcases (hcm _).1 hb with hp | hst
+            · rw [mpr, hs.unpruned] at hp; cases hp
+            · obtain ⟨x, hx, ex⟩ := (stored_iff _ _).1 ((mst _).1 hst)
+              have := hs.below x hx
+              omega
+        obtain ⟨x, hx, ex⟩ := (stored_iff _ _).1 (hfull r'.1 h1 hle)
+        exact hdis x hx ⟨by omega, by omega⟩
+      · cases hreq
+  | succ n ih =>
+    intro s0 hs hn
+    cases hreq : (fetchNextBatch e s0).2 with
+    | none =>
+      -- nothing scheduled: by the progress lemma the window is full
+      have hs1 : (fetchNextBatch e s0).1 = s0 := by
+        unfold fetchNextBatch at hreq ⊢
+        split at hreq
+        · cases hreq
+        · rfl
+      refine ⟨[], trivial, Nat.zero_le _, ?_, ?_⟩
+      · intro m h1 h2 h4
+        simp only [run]; rw [hs1]
+        cases hst : s0.store.stored m with
+        | true => rfl
+        | false =>
+          exfalso
+          obtain ⟨ist, mst⟩ := storedRanges_spec hs.inv.abs
+          have hpr' : s0.store.prunedRanges = [] := by
+            simp [AbsStore.prunedRanges, hs.unpruned, rangesOf, sup, runsDesc, AbsStore.isPruned]
+          obtain ⟨r, hr⟩ := Lumina.Proofs.SyncerGate.gate_progress (pc := true) (slowMin := e.slowMin)
+            (i := gateIn e s0) (old := e.chain.oldS) (H := H) (m := m)
+            ist hpr' (by simp [gateIn, hs.idle]) hs.peers hs.head hs.headLt hs.batch hs.slow
+            (fun _ => rfl) hmono h1 h2 (fun hcm => by rw [(mst m).1 hcm] at hst; cases hst) h4
+          unfold fetchNextBatch at hreq
+          have : fetchDecision e.slowMin (gateIn e s0) = .ok (.request r) := hr
+          rw [this] at hreq
+          cases hreq
+      · simp only [run]; rw [hs1]; exact hs.idle
+    | some r =>
+      -- a request is scheduled: answer it honestly and continue
+      have hdec : fetchDecision e.slowMin (gateIn e s0) = .ok (.request r) := by
+        unfold fetchNextBatch at hreq
+        split at hreq
+        · rename_i r' hd'; injection hreq with hreq; subst hreq; exact hd'
+        · cases hreq
+      have hs1 : (fetchNextBatch e s0).1 = { s0 with ongoing := some r } := by
+        unfold fetchNextBatch; rw [hdec]
+      have hne := hs.inv.headSet H hs.head
+      obtain ⟨_, _, _, _, _, _, _, hle64, _⟩ := Lumina.Proofs.SyncerGate.request_cases hdec
+      obtain ⟨h1, h2, hnb⟩ := request_has_stored_neighbour hs.inv.abs hs.inv.top hne hdec
+      -- the batch lies at or below the head
+      have hr2H : r.2 ≤ H := by
+        obtain ⟨ist, mst⟩ := storedRanges_spec hs.inv.abs
+        obtain ⟨ipr, mpr⟩ := prunedRanges_spec hs.inv.abs
+        obtain ⟨head, synced, _, hhead, hadd, hcalc, hnemp, _, _⟩ :=
+          Lumina.Proofs.SyncerGate.request_cases hdec
+        simp only [gateIn] at hadd hcalc hhead
+        obtain ⟨c', hc', hci, hcm⟩ := Lumina.Proofs.Ranges.add_spec ipr ist
+        rw [hadd] at hc'
+        injection hc' with hc'
+        subst hc'
+        obtain ⟨_, _, hshape⟩ := Lumina.Proofs.SyncerGate.calc_cases hci hcalc hnemp
+        rw [hs.head] at hhead
+        injection hhead with hhead
+        subst hhead
+        rcases hshape with ⟨_, hr2, _⟩ | ⟨hb, _, _⟩
+        · exact hr2
+        · rcases (hcm _).1 hb with hp | hst
+          · rw [mpr, hs.unpruned] at hp; cases hp
+          · obtain ⟨x, hx, ex⟩ := (stored_iff _ _).1 ((mst _).1 hst)
+            have := hs.below x hx
+            omega
+      obtain ⟨hacc, hchk, hlt⟩ := honest_answer_progress hc hs.inv hne hdec H (by omega)
+      let hsn := span c r.1 (r.2 + 1 - r.1)
+      let ev : Ev := .batch (some hsn)
+      -- the state the worker decides in after the honest answer
+      let s2 : State := { s0 with store := (s0.store.insert v hsn).1 }
+      have hspan_mem : ∀ x ∈ hsn, ∃ y, r.1 ≤ y ∧ y ≤ r.2 ∧ x = c y := by
+        intro x hx
+        simp only [hsn, span, List.mem_map, List.mem_range'_1] at hx
+        obtain ⟨y, hy, rfl⟩ := hx
+        exact ⟨y, by omega, by omega, rfl⟩
+      have hstep : (step e { s0 with ongoing := some r } ev).1 = (fetchNextBatch e s2).1 := by
+        have hidle := hs.idle
+        have hconn := hs.connected
+        have hslow := hs.slow
+        cases s0 with
+        | mk st hd sl og pe ph bsz =>
+          simp only at hidle hconn hslow
+          subst hidle hconn hslow
+          simp only [step, ev, slowSyncScan_none _ hP, hev, s2]
+      have hst2 : Steady c e s2 H := by
+        refine ⟨?_, hs.idle, hs.connected, hs.peers, hs.head, hs.headLt, hs.batch, hs.slow, ?_, ?_⟩
+        · exact inv_insert_trusted v hs.inv hsn
+            (fun x hx => by
+              obtain ⟨y, _, hy2, rfl⟩ := hspan_mem x hx
+              simp only [HdrWf, hc.height]
+              have : Lumina.Model.Store.U64_MAX = Lumina.Model.Ranges.U64_MAX := rfl
+              omega)
+            (fun x hx => by obtain ⟨y, _, _, rfl⟩ := hspan_mem x hx; exact onChain_honest hc y)
+        · have := insert_pruned_sub v s0.store hsn
+          cases hp : (s0.store.insert v hsn).1.pruned with
+          | nil => rfl
+          | cons p rest =>
+            have := this p (by rw [hp]; simp)
+            rw [hs.unpruned] at this; cases this
+        · intro x hx
+          simp only [s2] at hx
+          rw [insert_eq_added v s0.store hsn _ _ hchk] at hx
+          simp only [added, List.mem_append] at hx
+          rcases hx with hx | hx
+          · exact hs.below x hx
+          · obtain ⟨y, _, hy2, rfl⟩ := hspan_mem x hx
+            rw [hc.height]; omega
+      have hmiss : missing s2.store 1 H ≤ n := by
+        have : missing s2.store 1 H < missing s0.store 1 H := hlt
+        omega
+      obtain ⟨evs, hrun, hlen, hfull, hidle⟩ := ih s2 hst2 hmiss
+      refine ⟨ev :: evs, ?_, by simp; omega, ?_, ?_⟩
+      · rw [hs1]
+        refine ⟨⟨fun r' hr' => ?_, fun x hx => ?_⟩, ?_⟩
+        · injection hr' with hr'; subst hr'; exact hacc
+        · obtain ⟨y, _, hy2, rfl⟩ := hspan_mem x hx
+          simp only [HdrWf, hc.height]
+          have : Lumina.Model.Store.U64_MAX = Lumina.Model.Ranges.U64_MAX := rfl
+          omega
+        · rw [hstep]; exact hrun
+      · rw [hs1]; simp only [run]; rw [hstep]; exact hfull
+      · rw [hs1]; simp only [run]; rw [hstep]; exact hidle
